@@ -1,47 +1,13 @@
 /-
   C05 allocation accounting, byte-slice path (`Unmarshal`, the unmarshal* / Scan* functions):
-  linear for every top-level type except the three multis, whose member scans recurse into nested
-  one-member multis and re-derive the stride: there the bound is quadratic (and `C05AllocLower`
-  shows that it cannot be improved to the property's linear bound).
+  LINEAR for every input.  A member of a multi is decoded by the plain decoder of its type
+  (`scanMember`), a succeeding member scan is paid for by the bytes the loop then skips (the re-derived
+  stride), and a failing one ends the loop.
 -/
 import OrbProofs.C05AllocStream
 
 namespace Orb.WKB
 open Orb Generated.Params
-
-/-- bytes per input byte in the linear term of the quadratic bound -/
-def allocQuadLin : Nat := 300
-
-/-! ### arithmetic of the quadratic envelope -/
-
-/-- `Λ m = m² + 300 m + 2400` -/
-def allocLam (m : Nat) : Nat := m * m + 300 * m + 2400
-
-theorem allocLam_mono {a b : Nat} (h : a ≤ b) : allocLam a ≤ allocLam b := by
-  unfold allocLam
-  have := Nat.mul_le_mul h h
-  omega
-
-theorem allocLam_shift (n : Nat) : allocLam (n + 9) = allocLam n + 18 * n + 2781 := by
-  unfold allocLam
-  have : (n + 9) * (n + 9) = n * n + 18 * n + 81 := by
-    rw [Nat.add_mul, Nat.mul_add]; omega
-  omega
-
-theorem allocLam_step {a m : Nat} (h : a + 9 ≤ m) : 7 * m + allocLam a ≤ allocLam m := by
-  obtain ⟨n, rfl⟩ : ∃ n, m = n + 9 := ⟨m - 9, by omega⟩
-  have h1 : allocLam a ≤ allocLam n := allocLam_mono (by omega)
-  have := allocLam_shift n
-  omega
-
-theorem allocLam_step2 {a m : Nat} (h : a + 9 ≤ m) : 2400 + allocLam a ≤ allocLam m := by
-  obtain ⟨n, rfl⟩ : ∃ n, m = n + 9 := ⟨m - 9, by omega⟩
-  have h1 : allocLam a ≤ allocLam n := allocLam_mono (by omega)
-  have := allocLam_shift n
-  omega
-
-theorem allocLam_lin (m : Nat) : m + 2400 ≤ allocLam m := by
-  unfold allocLam; omega
 
 /-! ### leaves -/
 
@@ -138,330 +104,251 @@ theorem unmarshalPolygonAlloc_ok {o : Order} {d : Bytes} {rs : List (List (Pt UI
       simp only [List.length_drop] at this hc
       omega
 
-/-! ### the member loop and the scan / multi pair, generically -/
-
-theorem memberLoop_length {β : Type} (scan : Bytes → R (β × Nat)) (stride : β → Nat) (n : Nat) :
-    ∀ {data : Bytes} {xs : List β}, memberLoop scan stride n data = .ok xs → xs.length = n := by
+theorem unmarshalPolygonAlloc_loop_ok {o : Order} (n : Nat) :
+    ∀ {d : Bytes} {rs : List (List (Pt UInt64))}, unmarshalPolygon.loop o n d = .ok rs →
+      unmarshalPolygonAlloc.loop o n d ≤ 16 * (rs.map List.length).sum := by
   induction n with
-  | zero =>
-    intro data xs h
-    simp only [memberLoop] at h
-    injection h with h; subst h; rfl
+  | zero => intro d rs _; simp only [unmarshalPolygonAlloc.loop]; exact Nat.zero_le _
   | succ n ih =>
-    intro data xs h
-    simp only [memberLoop] at h
+    intro d rs h
+    simp only [unmarshalPolygon.loop] at h
+    simp only [unmarshalPolygonAlloc.loop]
     split at h
-    · split at h
-      · split at h
-        · rename_i xs' hxs'
+    · rename_i ps hps
+      have hb := unmarshalPointsAlloc_ok hps
+      split at h
+      · rename_i rest hrest
+        split at h
+        · rename_i rs' hrs'
           injection h with h
           subst h
-          have := ih hxs'
-          simp only [List.length_cons]; omega
+          have := ih hrs'
+          simp only [hps, hrest, List.map_cons, List.sum_cons]
+          omega
         all_goals contradiction
       all_goals contradiction
     all_goals contradiction
 
-/-- the member loop stays under the envelope when every scan does and a succeeding scan is cheap -/
-theorem memberLoopAlloc_le {β : Type} (scan : Bytes → R (β × Nat)) (scanAlloc : Bytes → Nat) (stride : β → Nat)
-    (hQ : ∀ d, scanAlloc d ≤ allocLam d.length)
-    (hS : ∀ d x s, scan d = .ok (x, s) → scanAlloc d ≤ 7 * d.length)
-    (H3 : ∀ x, 9 ≤ stride x) (n : Nat) :
-    ∀ e : Bytes, memberLoopAlloc scan scanAlloc stride n e ≤ allocLam e.length := by
+/-- a succeeding polygon decode requested at most 6 bytes per byte of its re-derived stride -/
+theorem unmarshalPolygonAlloc_stride {o : Order} {d : Bytes} {rs : List (List (Pt UInt64))}
+    (h : unmarshalPolygon o d = .ok rs) : unmarshalPolygonAlloc o d ≤ 6 * polyStride rs := by
+  unfold unmarshalPolygon at h
+  split at h
+  · contradiction
+  · have hn := (unmarshalPolygon_loop_ok _ h).1
+    have hl := unmarshalPolygonAlloc_loop_ok _ h
+    unfold unmarshalPolygonAlloc
+    simp only [lenLt_eq, decide_eq_true_eq, szSlice]
+    split
+    · exact Nat.zero_le _
+    · have := (allocCap_le' (rd32 o d) wkb_MaxMultiAlloc).2
+      have hs : (rs.map fun r => 4 + 16 * r.length).sum = 16 * (rs.map List.length).sum + 4 * rs.length := by
+        clear h hn hl
+        induction rs with
+        | nil => simp
+        | cons r rs ih => simp only [List.map_cons, List.sum_cons, List.length_cons, ih]; omega
+      unfold polyStride
+      omega
+
+/-! ### the member loop and the multi decoders, generically -/
+
+/-- the member loop: `c` bytes per input byte plus, once, what a failing scan may request -/
+theorem memberLoopAlloc_lin {β : Type} (scan : Bytes → R (β × Nat)) (scanAlloc : Bytes → Nat) (stride : β → Nat)
+    (c K : Nat)
+    (hF : ∀ d, scanAlloc d ≤ c * d.length + K)
+    (hS : ∀ d x s, scan d = .ok (x, s) → scanAlloc d ≤ c * stride x) (n : Nat) :
+    ∀ e : Bytes, memberLoopAlloc scan scanAlloc stride n e ≤ c * e.length + K := by
   induction n with
-  | zero => intro e; simp only [memberLoopAlloc]; unfold allocLam; omega
+  | zero => intro e; simp only [memberLoopAlloc]; exact Nat.zero_le _
   | succ n ih =>
     intro e
     simp only [memberLoopAlloc]
-    have hq := hQ e
+    have hf := hF e
     split
     · rename_i x s hx
       have hs := hS _ _ _ hx
       split
       · rename_i rest hrest
         have hl := sliceFrom_len hrest
-        have h3 := H3 x
         have := ih rest
-        have := @allocLam_step rest.length e.length (by omega)
+        rw [← hl, Nat.mul_add]
         omega
       · omega
     · omega
 
-/-- Q2: a scan stays under the envelope when its multi decoder does -/
-theorem scanSingleAlloc_le (tS tM : Nat) (singleAlloc multiAlloc : Order → Bytes → Nat)
-    (H1 : ∀ o d, singleAlloc o d ≤ d.length + 2400)
-    (hM : ∀ o d, multiAlloc o d ≤ allocLam (d.length + 5)) (d : Bytes) :
-    scanSingleAlloc tS tM singleAlloc multiAlloc d ≤ allocLam d.length := by
-  unfold scanSingleAlloc
+theorem scanMemberAlloc_F (tS : Nat) (singleAlloc : Order → Bytes → Nat) (c K : Nat)
+    (H1 : ∀ o d, singleAlloc o d ≤ c * d.length + K) (d : Bytes) :
+    scanMemberAlloc tS singleAlloc d ≤ c * d.length + K := by
+  unfold scanMemberAlloc
   split
   · rename_i o typ srid gd hb
     have hl := (unmarshalBOT_len hb).1
     split
+    · exact Nat.zero_le _
     · have := H1 o gd
-      have := allocLam_lin d.length
+      have : c * gd.length ≤ c * d.length := Nat.mul_le_mul_left c (by omega)
       omega
-    · split
-      · have := hM o gd
-        have := @allocLam_mono (gd.length + 5) d.length hl
-        omega
-      · omega
-  · omega
+  · exact Nat.zero_le _
 
-section generic
-variable {β : Type} (sz tS tM : Nat) (single : Order → Bytes → R β)
-  (singleAlloc : Order → Bytes → Nat) (stride : β → Nat)
-
-/-- S, one level: a succeeding scan is cheap when a succeeding one-member multi is -/
-theorem scanSingleAlloc_ok (multi : Order → Bytes → R (List β)) (multiAlloc : Order → Bytes → Nat)
-    (H2 : ∀ o d x, single o d = .ok x → singleAlloc o d ≤ 7 * d.length)
-    (hM : ∀ o d p, multi o d = .ok [p] → multiAlloc o d ≤ 7 * d.length)
-    (d : Bytes) (x : β) (s : Nat) (h : scanSingle tS tM single multi d = .ok (x, s)) :
-    scanSingleAlloc tS tM singleAlloc multiAlloc d ≤ 7 * d.length := by
-  unfold scanSingle at h
-  unfold scanSingleAlloc
+theorem scanMemberAlloc_S {β : Type} (tS : Nat) (single : Order → Bytes → R β)
+    (singleAlloc : Order → Bytes → Nat) (stride : β → Nat) (c : Nat)
+    (H2 : ∀ o d x, single o d = .ok x → singleAlloc o d ≤ c * stride x)
+    (d : Bytes) (x : β) (s : Nat) (h : scanMember tS single d = .ok (x, s)) :
+    scanMemberAlloc tS singleAlloc d ≤ c * stride x := by
+  unfold scanMember at h
+  unfold scanMemberAlloc
   split at h
   · rename_i o typ srid gd hb
-    have hl := (unmarshalBOT_len hb).1
     rw [hb]
     simp only []
     split at h
-    · rename_i ht
-      rw [if_pos ht]
-      split at h
-      · rename_i p hp
-        have := H2 _ _ _ hp
-        omega
-      all_goals contradiction
+    · contradiction
     · rename_i ht
       rw [if_neg ht]
       split at h
-      · rename_i ht2
-        rw [if_pos ht2]
-        split at h
-        · rename_i p hp
-          have := hM _ _ _ hp
-          omega
-        all_goals contradiction
-      · contradiction
+      · rename_i p hp
+        injection h with h; injection h with h _; subst h
+        exact H2 _ _ _ hp
+      all_goals contradiction
   all_goals contradiction
 
-/-- S, the multi side: a one-member multi costs its `make` plus the member's scan -/
-theorem unmarshalMultiFAlloc_ok (hsz : sz ≤ 24)
-    (H2 : ∀ o d x, single o d = .ok x → singleAlloc o d ≤ 7 * d.length) (f : Nat) :
-    ∀ (o : Order) (d : Bytes) (p : β), unmarshalMultiF tS tM single stride f o d = .ok [p] →
-      unmarshalMultiFAlloc sz tS tM single singleAlloc stride f o d ≤ 7 * d.length := by
-  induction f with
-  | zero => intro o d p _; simp only [unmarshalMultiFAlloc]; omega
-  | succ f ih =>
-    intro o d p h
-    simp only [unmarshalMultiF] at h
-    simp only [unmarshalMultiFAlloc, lenLt_eq, decide_eq_true_eq, wkb_MaxMultiAlloc]
-    split at h
-    · contradiction
-    · rename_i h4
-      rw [if_neg h4]
-      have hn := memberLoop_length _ _ _ h
-      simp only [List.length_cons, List.length_nil] at hn
-      rw [← hn] at h ⊢
-      simp only [memberLoop] at h
-      simp only [memberLoopAlloc]
-      split at h
-      · rename_i x s hx
-        have hS := scanSingleAlloc_ok tS tM single singleAlloc _
-          (unmarshalMultiFAlloc sz tS tM single singleAlloc stride f) H2 ih _ _ _ hx
-        split at h
-        · rename_i rest hrest
-          simp only [hx, hrest]
-          simp only [List.length_drop] at hS
-          have := (allocCap_le' (0 + 1) 100).2
-          have : sz * allocCap (0 + 1) 100 ≤ 24 := by
-            calc sz * allocCap (0 + 1) 100 ≤ 24 * 1 := Nat.mul_le_mul hsz this
-              _ = 24 := rfl
-          omega
-        all_goals contradiction
-      all_goals contradiction
-
-/-- S: a succeeding scan of a member costs at most 7 bytes per input byte -/
-theorem scanSingleFAlloc_ok (hsz : sz ≤ 24)
-    (H2 : ∀ o d x, single o d = .ok x → singleAlloc o d ≤ 7 * d.length) (f : Nat)
-    (d : Bytes) (x : β) (s : Nat)
-    (h : scanSingle tS tM single (unmarshalMultiF tS tM single stride f) d = .ok (x, s)) :
-    scanSingleAlloc tS tM singleAlloc (unmarshalMultiFAlloc sz tS tM single singleAlloc stride f) d
-      ≤ 7 * d.length :=
-  scanSingleAlloc_ok tS tM single singleAlloc _ _ H2
-    (unmarshalMultiFAlloc_ok sz tS tM single singleAlloc stride hsz H2 f) d x s h
-
-/-- Q1: every outcome of a multi decoder stays under the envelope of its frame -/
-theorem unmarshalMultiFAlloc_le (hsz : sz ≤ 24)
-    (H1 : ∀ o d, singleAlloc o d ≤ d.length + 2400)
-    (H2 : ∀ o d x, single o d = .ok x → singleAlloc o d ≤ 7 * d.length)
-    (H3 : ∀ x, 9 ≤ stride x) (f : Nat) :
-    ∀ (o : Order) (d : Bytes),
-      unmarshalMultiFAlloc sz tS tM single singleAlloc stride f o d ≤ allocLam (d.length + 5) := by
-  induction f with
-  | zero => intro o d; simp only [unmarshalMultiFAlloc]; unfold allocLam; omega
-  | succ f ih =>
-    intro o d
-    simp only [unmarshalMultiFAlloc, lenLt_eq, decide_eq_true_eq, wkb_MaxMultiAlloc]
-    split
-    · unfold allocLam; omega
-    · rename_i h4
-      have hLA := memberLoopAlloc_le
-        (scanSingle tS tM single (unmarshalMultiF tS tM single stride f))
-        (scanSingleAlloc tS tM singleAlloc (unmarshalMultiFAlloc sz tS tM single singleAlloc stride f))
-        stride
-        (scanSingleAlloc_le tS tM singleAlloc _ H1 ih)
-        (scanSingleFAlloc_ok sz tS tM single singleAlloc stride hsz H2 f)
-        H3 (rd32 o d) (d.drop 4)
-      simp only [List.length_drop] at hLA
-      have hc := (allocCap_le' (rd32 o d) 100).1
-      have : sz * allocCap (rd32 o d) 100 ≤ 2400 := by
-        calc sz * allocCap (rd32 o d) 100 ≤ 24 * 100 := Nat.mul_le_mul hsz hc
-          _ = 2400 := rfl
-      have := @allocLam_step2 (d.length - 4) (d.length + 5) (by omega)
-      omega
-
-/-- Q2 at any fuel -/
-theorem scanSingleFAlloc_le (hsz : sz ≤ 24)
-    (H1 : ∀ o d, singleAlloc o d ≤ d.length + 2400)
-    (H2 : ∀ o d x, single o d = .ok x → singleAlloc o d ≤ 7 * d.length)
-    (H3 : ∀ x, 9 ≤ stride x) (f : Nat) (d : Bytes) :
-    scanSingleAlloc tS tM singleAlloc (unmarshalMultiFAlloc sz tS tM single singleAlloc stride f) d
-      ≤ allocLam d.length :=
-  scanSingleAlloc_le tS tM singleAlloc _ H1
-    (unmarshalMultiFAlloc_le sz tS tM single singleAlloc stride hsz H1 H2 H3 f) d
-
-end generic
+/-- a multi decoder, every outcome: its own capped `make`, `c` bytes per input byte for the members
+    that were skipped over, and what the last, failing member may request -/
+theorem unmarshalMultiFAlloc_lin {β : Type} (sz tS : Nat) (single : Order → Bytes → R β)
+    (singleAlloc : Order → Bytes → Nat) (stride : β → Nat) (c K : Nat)
+    (H1 : ∀ o d, singleAlloc o d ≤ c * d.length + K)
+    (H2 : ∀ o d x, single o d = .ok x → singleAlloc o d ≤ c * stride x) (o : Order) (d : Bytes) :
+    unmarshalMultiFAlloc sz tS single singleAlloc stride o d ≤ sz * wkb_MaxMultiAlloc + c * d.length + K := by
+  unfold unmarshalMultiFAlloc
+  simp only [lenLt_eq, decide_eq_true_eq]
+  split
+  · exact Nat.zero_le _
+  · have hLA := memberLoopAlloc_lin (scanMember tS single) (scanMemberAlloc tS singleAlloc) stride c K
+      (scanMemberAlloc_F tS singleAlloc c K H1) (scanMemberAlloc_S tS single singleAlloc stride c H2)
+      (rd32 o d) (d.drop 4)
+    have hc : sz * allocCap (rd32 o d) wkb_MaxMultiAlloc ≤ sz * wkb_MaxMultiAlloc :=
+      Nat.mul_le_mul_left sz (allocCap_le' _ _).1
+    have : c * (d.drop 4).length ≤ c * d.length := Nat.mul_le_mul_left c (by simp only [List.length_drop]; omega)
+    omega
 
 /-! ### the three instantiations -/
 
-theorem polyStride_ge (p : List (List (Pt UInt64))) : 9 ≤ polyStride p := by
-  unfold polyStride; omega
+theorem unmarshalMultiPointAlloc_le (o : Order) (d : Bytes) : unmarshalMultiPointAlloc o d ≤ 1600 := by
+  have := unmarshalMultiFAlloc_lin szPoint wkb_pointType unmarshalPoint (fun _ _ => 0) (fun _ => 21) 0 0
+    (fun _ _ => Nat.zero_le _) (fun _ _ _ _ => Nat.zero_le _) o d
+  simp only [szPoint, wkb_MaxMultiAlloc] at this
+  unfold unmarshalMultiPointAlloc
+  simp only [szPoint]
+  omega
 
-theorem unmarshalMultiPointAlloc_le (f : Nat) (o : Order) (d : Bytes) :
-    unmarshalMultiPointAlloc f o d ≤ allocLam (d.length + 5) :=
-  unmarshalMultiFAlloc_le szPoint wkb_pointType wkb_multiPointType unmarshalPoint (fun _ _ => 0) (fun _ => 21)
-    (by decide) (fun _ _ => Nat.zero_le _) (fun _ _ _ _ => Nat.zero_le _) (fun _ => by decide) f o d
+theorem unmarshalMultiLineStringAlloc_le (o : Order) (d : Bytes) :
+    unmarshalMultiLineStringAlloc o d ≤ d.length + 2400 := by
+  have := unmarshalMultiFAlloc_lin szSlice wkb_lineStringType unmarshalPoints unmarshalPointsAlloc
+    (fun ls => 16 * ls.length + 9) 1 0
+    (fun o d => by have := unmarshalPointsAlloc_le o d; omega)
+    (fun o d x h => by have := unmarshalPointsAlloc_ok h; omega) o d
+  simp only [szSlice, wkb_MaxMultiAlloc] at this
+  unfold unmarshalMultiLineStringAlloc
+  simp only [szSlice]
+  omega
 
-theorem unmarshalMultiLineStringAlloc_le (f : Nat) (o : Order) (d : Bytes) :
-    unmarshalMultiLineStringAlloc f o d ≤ allocLam (d.length + 5) :=
-  unmarshalMultiFAlloc_le szSlice wkb_lineStringType wkb_multiLineStringType unmarshalPoints unmarshalPointsAlloc
-    (fun ls => 16 * ls.length + 9)
-    (by decide) (fun o d => by have := unmarshalPointsAlloc_le o d; omega)
-    (fun o d _ _ => by have := unmarshalPointsAlloc_le o d; omega) (fun _ => by omega) f o d
+theorem unmarshalMultiPolygonAlloc_le (o : Order) (d : Bytes) :
+    unmarshalMultiPolygonAlloc o d ≤ 6 * d.length + 4800 := by
+  have := unmarshalMultiFAlloc_lin szSlice wkb_polygonType unmarshalPolygon unmarshalPolygonAlloc polyStride 6 2400
+    (fun o d => by have := unmarshalPolygonAlloc_le o d; omega)
+    (fun o d x h => unmarshalPolygonAlloc_stride h) o d
+  simp only [szSlice, wkb_MaxMultiAlloc] at this
+  unfold unmarshalMultiPolygonAlloc
+  simp only [szSlice]
+  omega
 
-theorem unmarshalMultiPolygonAlloc_le (f : Nat) (o : Order) (d : Bytes) :
-    unmarshalMultiPolygonAlloc f o d ≤ allocLam (d.length + 5) :=
-  unmarshalMultiFAlloc_le szSlice wkb_polygonType wkb_multiPolygonType unmarshalPolygon unmarshalPolygonAlloc
-    polyStride
-    (by decide) unmarshalPolygonAlloc_le (fun _ _ _ h => unmarshalPolygonAlloc_ok h) polyStride_ge f o d
-
-theorem scanPointAlloc_le (f : Nat) (d : Bytes) :
-    scanSingleAlloc wkb_pointType wkb_multiPointType (fun _ _ => 0) (unmarshalMultiPointAlloc f) d
-      ≤ allocLam d.length :=
-  scanSingleAlloc_le _ _ _ _ (fun _ _ => Nat.zero_le _) (unmarshalMultiPointAlloc_le f) d
-
-theorem scanLineStringAlloc_le (f : Nat) (d : Bytes) :
-    scanSingleAlloc wkb_lineStringType wkb_multiLineStringType unmarshalPointsAlloc
-      (unmarshalMultiLineStringAlloc f) d ≤ allocLam d.length :=
-  scanSingleAlloc_le _ _ _ _ (fun o d => by have := unmarshalPointsAlloc_le o d; omega)
-    (unmarshalMultiLineStringAlloc_le f) d
-
-theorem scanPolygonAlloc_le (f : Nat) (d : Bytes) :
-    scanSingleAlloc wkb_polygonType wkb_multiPolygonType unmarshalPolygonAlloc
-      (unmarshalMultiPolygonAlloc f) d ≤ allocLam d.length :=
-  scanSingleAlloc_le _ _ _ _ unmarshalPolygonAlloc_le (unmarshalMultiPolygonAlloc_le f) d
-
-theorem allocFixed_eq : allocFixed = 164808 := by decide
-
-theorem allocLam_le_quad (m : Nat) : allocLam m ≤ m * m + allocQuadLin * m + allocFixed := by
-  rw [allocFixed_eq]; unfold allocLam allocQuadLin; omega
-
-theorem allocLin_le_quad (m : Nat) :
-    allocPerByte * m + allocFixed ≤ m * m + allocQuadLin * m + allocFixed := by
-  unfold allocPerByte allocQuadLin; omega
-
-/-- the non-multi part of `Unmarshal`: linear -/
-theorem unmarshalAlloc_cases (bs : Bytes) :
-    unmarshalAlloc bs ≤ allocPerByte * bs.length + allocFixed ∨
-    ((∃ o typ srid gd, unmarshalBOT bs = .ok (o, typ, srid, gd) ∧
-        (typ = wkb_multiPointType ∨ typ = wkb_multiLineStringType ∨ typ = wkb_multiPolygonType)) ∧
-      unmarshalAlloc bs ≤ allocLam bs.length) := by
-  unfold unmarshalAlloc
+/-- `ScanPoint` / `ScanLineString` / `ScanPolygon`: the plain decoder or the multi decoder -/
+theorem scanSingleAlloc_lin (tS tM : Nat) (singleAlloc multiAlloc : Order → Bytes → Nat) (c K : Nat)
+    (H1 : ∀ o d, singleAlloc o d ≤ c * d.length + K)
+    (hM : ∀ o d, multiAlloc o d ≤ c * d.length + K) (d : Bytes) :
+    scanSingleAlloc tS tM singleAlloc multiAlloc d ≤ c * d.length + K := by
+  unfold scanSingleAlloc
   split
   · rename_i o typ srid gd hb
     have hl := (unmarshalBOT_len hb).1
-    have hmono := @allocLam_mono (gd.length + 5) bs.length hl
-    simp only []
-    rw [allocFixed_eq]
-    unfold allocPerByte
+    have : c * gd.length ≤ c * d.length := Nat.mul_le_mul_left c (by omega)
     split
-    · left; omega
+    · have := H1 o gd; omega
     · split
-      · rename_i ht
-        right
-        exact ⟨⟨o, typ, srid, gd, hb, Or.inl ht⟩, Nat.le_trans (unmarshalMultiPointAlloc_le _ o gd) hmono⟩
+      · have := hM o gd; omega
+      · exact Nat.zero_le _
+  · exact Nat.zero_le _
+
+theorem allocFixed_eq : allocFixed = 164808 := by decide
+
+/-- `Unmarshal`: every input, every outcome -/
+theorem unmarshalAlloc_le' (bs : Bytes) : unmarshalAlloc bs ≤ allocPerByte * bs.length + allocFixed := by
+  unfold unmarshalAlloc
+  rw [allocFixed_eq]
+  unfold allocPerByte
+  split
+  · rename_i o typ srid gd hb
+    have hl := (unmarshalBOT_len hb).1
+    split
+    · omega
+    · split
+      · have := unmarshalMultiPointAlloc_le o gd; omega
       · split
-        · left
-          have := unmarshalPointsAlloc_le o gd
-          omega
+        · have := unmarshalPointsAlloc_le o gd; omega
         · split
-          · rename_i ht
-            right
-            exact ⟨⟨o, typ, srid, gd, hb, Or.inr (Or.inl ht)⟩,
-              Nat.le_trans (unmarshalMultiLineStringAlloc_le _ o gd) hmono⟩
+          · have := unmarshalMultiLineStringAlloc_le o gd; omega
           · split
-            · left
-              have := unmarshalPolygonAlloc_le o gd
-              omega
+            · have := unmarshalPolygonAlloc_le o gd; omega
             · split
-              · rename_i ht
-                right
-                exact ⟨⟨o, typ, srid, gd, hb, Or.inr (Or.inr ht)⟩,
-                  Nat.le_trans (unmarshalMultiPolygonAlloc_le _ o gd) hmono⟩
+              · have := unmarshalMultiPolygonAlloc_le o gd; omega
               · split
-                · left
-                  have := decodeAlloc_le' bs
+                · have := decodeAlloc_le' bs
                   rw [allocFixed_eq] at this
                   unfold allocPerByte at this
                   exact this
-                · left; omega
-  · left; omega
-
-/-- every input, every outcome -/
-theorem unmarshalAlloc_quadratic' (bs : Bytes) :
-    unmarshalAlloc bs ≤ bs.length * bs.length + allocQuadLin * bs.length + allocFixed := by
-  rcases unmarshalAlloc_cases bs with h | ⟨_, h⟩
-  · exact Nat.le_trans h (allocLin_le_quad _)
-  · exact Nat.le_trans h (allocLam_le_quad _)
-
-/-- the property's linear bound, for every input whose top-level type is not one of the three multis
-    (point, line string, polygon, collection, unknown types, unreadable headers) -/
-theorem unmarshalAlloc_le_of_not_multi' (bs : Bytes)
-    (h : ∀ o typ srid gd, unmarshalBOT bs = .ok (o, typ, srid, gd) →
-      typ ≠ wkb_multiPointType ∧ typ ≠ wkb_multiLineStringType ∧ typ ≠ wkb_multiPolygonType) :
-    unmarshalAlloc bs ≤ allocPerByte * bs.length + allocFixed := by
-  rcases unmarshalAlloc_cases bs with h' | ⟨⟨o, typ, srid, gd, hb, ht⟩, _⟩
-  · exact h'
-  · have := h o typ srid gd hb
-    rcases ht with ht | ht | ht
-    · exact absurd ht this.1
-    · exact absurd ht this.2.1
-    · exact absurd ht this.2.2
+                · omega
+  · omega
 
 /-- `wkbcommon.Scan` into any destination, after the framing has been removed -/
-theorem scanDestAlloc_quadratic' (d : Dest) (bs : Bytes) :
-    scanDestAlloc d bs ≤ bs.length * bs.length + allocQuadLin * bs.length + allocFixed := by
+theorem scanDestAlloc_le' (d : Dest) (bs : Bytes) :
+    scanDestAlloc d bs ≤ allocPerByte * bs.length + allocFixed := by
+  have hu := unmarshalAlloc_le' bs
+  have hd := decodeAlloc_le' bs
+  rw [allocFixed_eq] at hu hd ⊢
+  unfold allocPerByte at hu hd ⊢
   cases d <;> simp only [scanDestAlloc]
-  case any => exact unmarshalAlloc_quadratic' bs
-  case multiPoint => exact unmarshalAlloc_quadratic' bs
-  case ring => exact unmarshalAlloc_quadratic' bs
-  case bound => exact unmarshalAlloc_quadratic' bs
-  case point => exact Nat.le_trans (scanPointAlloc_le _ bs) (allocLam_le_quad _)
-  case lineString => exact Nat.le_trans (scanLineStringAlloc_le _ bs) (allocLam_le_quad _)
-  case multiLineString => exact Nat.le_trans (scanLineStringAlloc_le _ bs) (allocLam_le_quad _)
-  case polygon => exact Nat.le_trans (scanPolygonAlloc_le _ bs) (allocLam_le_quad _)
-  case multiPolygon => exact Nat.le_trans (scanPolygonAlloc_le _ bs) (allocLam_le_quad _)
-  case collection => exact Nat.le_trans (decodeAlloc_le' bs) (allocLin_le_quad _)
+  case any => exact hu
+  case multiPoint => exact hu
+  case ring => exact hu
+  case bound => exact hu
+  case collection => exact hd
+  case point =>
+    have := scanSingleAlloc_lin wkb_pointType wkb_multiPointType (fun _ _ => 0) unmarshalMultiPointAlloc 0 1600
+      (fun _ _ => Nat.zero_le _) (fun o d => by have := unmarshalMultiPointAlloc_le o d; omega) bs
+    omega
+  case lineString =>
+    have := scanSingleAlloc_lin wkb_lineStringType wkb_multiLineStringType unmarshalPointsAlloc
+      unmarshalMultiLineStringAlloc 1 2400
+      (fun o d => by have := unmarshalPointsAlloc_le o d; omega)
+      (fun o d => by have := unmarshalMultiLineStringAlloc_le o d; omega) bs
+    omega
+  case multiLineString =>
+    have := scanSingleAlloc_lin wkb_lineStringType wkb_multiLineStringType unmarshalPointsAlloc
+      unmarshalMultiLineStringAlloc 1 2400
+      (fun o d => by have := unmarshalPointsAlloc_le o d; omega)
+      (fun o d => by have := unmarshalMultiLineStringAlloc_le o d; omega) bs
+    omega
+  case polygon =>
+    have := scanSingleAlloc_lin wkb_polygonType wkb_multiPolygonType unmarshalPolygonAlloc
+      unmarshalMultiPolygonAlloc 6 4800
+      (fun o d => by have := unmarshalPolygonAlloc_le o d; omega)
+      (fun o d => by have := unmarshalMultiPolygonAlloc_le o d; omega) bs
+    omega
+  case multiPolygon =>
+    have := scanSingleAlloc_lin wkb_polygonType wkb_multiPolygonType unmarshalPolygonAlloc
+      unmarshalMultiPolygonAlloc 6 4800
+      (fun o d => by have := unmarshalPolygonAlloc_le o d; omega)
+      (fun o d => by have := unmarshalMultiPolygonAlloc_le o d; omega) bs
+    omega
 
 end Orb.WKB
